@@ -786,6 +786,21 @@ func gen(r *rand.Rand, tier string, emit func(core.Case)) {
 	for i := 0; i < 4*mul; i++ {
 		emit(genV2(r, "v2-ih"))
 	}
+	for i := 0; i < 40*mul; i++ {
+		emit(genV1(r, "v1-sync"))
+	}
+	for i := 0; i < 50*mul; i++ {
+		emit(genV1(r, "v1-soup"))
+	}
+	for i := 0; i < 6*mul; i++ {
+		emit(genV1(r, "v1-byz"))
+	}
+	for i := 0; i < 30*mul; i++ {
+		emit(genSched(r, "sc-sync"))
+	}
+	for i := 0; i < 60*mul; i++ {
+		emit(genSched(r, "sc-soup"))
+	}
 }
 
 // ---------------------------------------------------------------------------------------------
@@ -856,6 +871,12 @@ func fullyValid(set []pv, sigs string) bool {
 func oracle(c core.Case, out []string) []core.Finding {
 	if len(c.Ops) > 0 && strings.HasPrefix(c.Ops[0], "v2") {
 		return oracleV2(c, out)
+	}
+	if len(c.Ops) > 0 && strings.HasPrefix(c.Ops[0], "v1") {
+		return oracleV1(c, out)
+	}
+	if len(c.Ops) > 0 && strings.HasPrefix(c.Ops[0], "sc") {
+		return oracleSched(c, out)
 	}
 	var fs []core.Finding
 	var set0 []pv
@@ -1100,7 +1121,12 @@ func nonTrivial(c core.Case, out []string) bool {
 			proc = true
 		}
 	}
-	return (added && proc) || (proc && len(c.Ops) > 0 && strings.HasPrefix(c.Ops[0], "v2"))
+	for _, o := range out {
+		if o == "processed" || o == "verification-failure" || strings.HasPrefix(o, "block-request") {
+			proc = true
+		}
+	}
+	return (added && proc) || (proc && len(c.Ops) > 0 && (strings.HasPrefix(c.Ops[0], "v") || strings.HasPrefix(c.Ops[0], "sc")))
 }
 
 func extra() map[string]interface{} {
